@@ -72,6 +72,10 @@ def inventories_from_data_files():
     vow = ''.join(ch for ch in text('vowels') if ch not in dia)
     ton = text('tones')
     out["load_dvt('evolaemp')"] = out["load_dvt('el')"] = hashlib.sha256(repr((dia, vow, ton)).encode()).hexdigest()
+    # the inventories in force after rc(schema=...) in each of the three spellings of the ASJP-based schema
+    for spelling in ('evolaemp', 'el', 'asjp'):
+        for k, v in (('diacritics', dia), ('vowels', vow), ('tones', ton)):
+            out['%s under rc(schema=%r)' % (k, spelling)] = hashlib.sha256(repr(v).encode()).hexdigest()
     return out
 
 
